@@ -1189,8 +1189,11 @@ impl InstructionVerifier<'_, '_> {
             return scope.dom_tree.dominates(arg.block, use_block);
         }
 
+        // The operand is an instruction that is not contained in any block of
+        // this function (e.g., it was removed while still being used), so it is
+        // never defined on any path to the use.
         let Some(&(def_block, def_pos)) = scope.inst_index.get(def_value) else {
-            return true;
+            return false;
         };
 
         // def_block is unreachable, use_block is reachable, so we have
